@@ -13,7 +13,7 @@ RP = "resource-policy.nri.io"
 ANN = {
     "shared": "prefer-shared-cpus." + RP, "isol": "prefer-isolated-cpus." + RP, "rsv": "prefer-reserved-cpus." + RP,
     "pcpu": "cpu.preserve." + RP, "pmem": "memory.preserve." + RP, "memtype": "memory-type." + RP,
-    "hideht": "hide-hyperthreads." + RP, "balloon": "balloon.balloons." + RP,
+    "hideht": "hide-hyperthreads." + RP, "balloon": "balloon.balloons." + RP, "cold": "cold-start." + RP,
 }
 
 _machines = None
@@ -166,7 +166,7 @@ def balloons_worlds(ms, rnd, n):
     return out
 
 
-def pod_class(rnd, policy="ta"):
+def pod_class(rnd, policy="ta", cold=0.12):
     qos = rnd.choice(["Guaranteed", "Guaranteed", "Burstable", "Burstable", "BestEffort"])
     ns = rnd.choice(["default"] * 6 + ["kube-system", "rsv-a", "other"])
     ann = {}
@@ -185,6 +185,13 @@ def pod_class(rnd, policy="ta"):
         ann[ANN["memtype"]] = rnd.choice(["dram", "pmem", "dram,pmem", "hbm", "mixed"])
     if r() < 0.08:
         ann[ANN["hideht"]] = "true"
+    if policy == "ta" and r() < cold:
+        # cold start: PMEM only until the timer fires (the generator fires it: op ColdDone)
+        ann[ANN["cold"]] = rnd.choice(["duration: 30m", "duration: 1h", "{duration: 10m}", "duration: 45m", "duration: 0s"])
+        if r() < 0.8:
+            ann[ANN["memtype"]] = rnd.choice(["dram,pmem", "pmem", "pmem,dram"])
+        if r() < 0.3:
+            ann[ANN["pmem"]] = "true"           # opted out of memory pinning: no cold start either
     if policy == "balloons":
         for k in ("shared", "isol", "rsv", "memtype"):
             ann.pop(ANN[k], None)
@@ -210,7 +217,13 @@ def ctr_class(rnd, qos, big_mem=False):
     return {"cpureq": cpu, "cpulim": lim, "memlim": mem, "memreq": rnd.choice([16, 64, 128, 256])}
 
 
-def lifecycle_history(world, rnd, nops, disorder=0.0, reconf_cfgs=None, sync=True, fuzz=0.0):
+def cold_ok_world(world):
+    """The topology-aware policy switches cold start off for good when any PMEM node is movable-only."""
+    pmem = [n for n in (world["machine"].get("cpuless_nodes") or []) if n.get("type") == "pmem"]
+    return world["policy"] == "ta" and bool(pmem) and all(n.get("normal") for n in pmem)
+
+
+def lifecycle_history(world, rnd, nops, disorder=0.0, reconf_cfgs=None, sync=True, fuzz=0.0, cold_bias=False):
     """A history over one world.  With disorder=0 the environment is a runtime consistent with its own bookkeeping
     (create before start, stop before remove, containers stopped before their pod); disorder>0 injects events for
     unknown ids, duplicates and out-of-order lifecycle events (C14)."""
@@ -221,13 +234,15 @@ def lifecycle_history(world, rnd, nops, disorder=0.0, reconf_cfgs=None, sync=Tru
     npod = [0]
     nctr = [0]
 
+    cold_ok = cold_ok_world(world)
+
     def new_pod():
         npod[0] += 1
         p = "p%d" % npod[0]
-        pc = pod_class(rnd, world["policy"])
+        pc = pod_class(rnd, world["policy"], cold=(0.9 if cold_bias else 0.45) if cold_ok else 0.08)
         if fuzz and rnd.random() < fuzz:
             pc["ann"].update(fuzz_annotations(rnd, ["c%d" % (nctr[0] + i) for i in range(1, 4)]))
-        pods[p] = {"qos": pc["qos"], "ctrs": []}
+        pods[p] = {"qos": pc["qos"], "ctrs": [], "ann": pc["ann"]}
         ops.append({"op": "RunPod", "pod": p, "pods": pc})
         return p
 
@@ -235,8 +250,14 @@ def lifecycle_history(world, rnd, nops, disorder=0.0, reconf_cfgs=None, sync=Tru
         return [c for c, s in ctrs.items() if s in ("created", "running")]
 
     big = rnd.random() < 0.3
+    cold = []       # [requests to go, container]: cold start timers (dropped by the harness unless the policy armed one)
     while len(ops) < nops:
         k = rnd.random()
+        for t in list(cold):
+            t[0] -= 1
+            if t[0] < 0:
+                cold.remove(t)
+                ops.append({"op": "ColdDone", "pod": pod_of.get(t[1], "px"), "c": t[1]})
         if disorder and rnd.random() < disorder:
             kind = rnd.choice(["StopPod", "RemovePod", "Create", "Start", "Update", "Stop", "Remove", "dupCreate", "earlyRemovePod"])
             if kind in ("StopPod", "RemovePod"):
@@ -276,12 +297,18 @@ def lifecycle_history(world, rnd, nops, disorder=0.0, reconf_cfgs=None, sync=Tru
             pods[p]["ctrs"].append(c)
             ctrs[c] = "created"          # if the plugin refuses, later events for it are harmless (unknown container)
             pod_of[c] = p
+            if cold_bias and ANN["cold"] in pods[p]["ann"] and rnd.random() < 0.7:
+                ops.append({"op": "Start", "pod": p, "c": c})
+                ctrs[c] = "running"
+                cold.append([rnd.randint(0, 3), c])
         elif k < 0.52:
             cs = [c for c, s in ctrs.items() if s == "created"]
             if cs:
                 c = rnd.choice(cs)
                 ops.append({"op": "Start", "pod": pod_of[c], "c": c})
                 ctrs[c] = "running"
+                if ANN["cold"] in pods[pod_of[c]]["ann"]:
+                    cold.append([rnd.randint(0, 4), c])
         elif k < 0.70:
             if live():
                 c = rnd.choice(live())
@@ -324,6 +351,8 @@ def lifecycle_history(world, rnd, nops, disorder=0.0, reconf_cfgs=None, sync=Tru
                         del ctrs[c]
                 ops.append({"op": "RemovePod", "pod": p})
                 del pods[p]
+    for t in cold:      # timers still running fire before the drain
+        ops.append({"op": "ColdDone", "pod": pod_of.get(t[1], "px"), "c": t[1]})
     # back to the configuration booted with (under load, or once everything is gone): quiescence is then the boot state
     back = rnd.random() if reconf_cfgs else 1.0
     if back < 0.5:
